@@ -823,7 +823,7 @@ def corpus():
 
 
 def generate(rng, tier):
-    n = 75 if tier == "quick" else 1200
+    n = 75 if tier == "quick" else 900
     cases = []
     for _ in range(n):
         sdl = gen_store.gen_schema_sdl(rng)
